@@ -29,6 +29,10 @@ class Scenario:
         self.admit = admit          # (cls, node) to run pass handlers on
         self.expect = expect        # expected net effect override
         self.entry = list(entry)    # entry stack (type names)
+        self.expect_target = None   # label the single jump must go to
+        self.must_admit = False     # the passes must accept the node
+        self.must_reject = False    # the passes must reject the node
+        self.pass_blocks = None     # Pass1._cur_blocks around the node
 
 
 def _opt(*vals):
@@ -218,6 +222,27 @@ def scenarios(sim, cls):
                DataObj(sim, bc.ci, [kind, '_exit_1'], {}),
                DataObj(sim, bc.ci, ['select', '_y'], {})]
         add('inside', ANode(sim, cls), blocks=blk)
+        # nested loops of the same kind (and one of the other kind in
+        # between): EXIT leaves the innermost loop of its kind
+        other = 'for' if kind == 'do' else 'do'
+        blk2 = [DataObj(sim, bc.ci, [kind, '_exit_outer'], {}),
+                DataObj(sim, bc.ci, [other, '_exit_other'], {}),
+                DataObj(sim, bc.ci, [kind, '_exit_inner'], {}),
+                DataObj(sim, bc.ci, ['select', '_y'], {}),
+                DataObj(sim, bc.ci, [other, '_exit_other2'], {})]
+        sc2 = Scenario(cls, 'nested', ANode(sim, cls), blocks=blk2)
+        sc2.expect_target = '_exit_inner'
+        sc2.must_admit = True
+        sc2.pass_blocks = [b for b in blk2
+                           if b.f.get('kind') in ('do', 'for')]
+        out.append(sc2)
+        # no enclosing loop of its kind: the passes must reject it
+        blk3 = [DataObj(sim, bc.ci, [other, '_exit_other'], {}),
+                DataObj(sim, bc.ci, ['select', '_y'], {})]
+        sc3 = Scenario(cls, 'outside', ANode(sim, cls), blocks=blk3)
+        sc3.must_reject = True
+        sc3.pass_blocks = [blk3[0]]
+        out.append(sc3)
     elif cls == 'ForBlock':
         for vt in NUM:
             for glob in (False, True):
